@@ -31,6 +31,13 @@ def run_record(rnd, tid, examples=None, kw=None, sizekw=None):
     rec = {'tid': tid, 'examples': examples, 'form': form, 'kw': {k: v for k, v in kw.items() if k != 'size'},
            'size': sizekw, 'rex': r['rex'], 'raised': r['raised'], 'kept': kept, 'events': r['events'], 'obj': r['obj']}
     rec['unmatched'] = [e for e in kept if not any(rx.full_match(x, e) for x in r['rex'])] if r['raised'] == 'none' else []
+    if kw.get('strip') and r['raised'] == 'none':
+        # with strip the expressions are wrapped so that the strings AS SUPPLIED match
+        for e in examples:
+            if e is None or (kw.get('remove_empties') and e.strip() == ''):
+                continue
+            if e not in rec['unmatched'] and not any(rx.full_match(x, e) for x in r['rex']):
+                rec['unmatched'].append(e)
     return rec
 
 
